@@ -60,6 +60,26 @@ def h_c02(shape, mask):
                  "timings and query times, this shape)")
 
 
+def h_c02_sequence(shape, mask):
+  """the generated sequence is exactly the list of snapshots taken at the significant times, in order"""
+  from rtc import isd_props as P
+
+  def run(ctx):
+    doc, _t = build(shape, mask)
+    st, seq = core.call_real(ISD.generate_isd_sequence, doc, allowed=())
+    st, sig = core.call_real(ISD.significant_times, doc, allowed=())
+    offs = list(sig)
+    prove(len(seq) == len(offs), "sequence-has-one-entry-per-significant-time")
+    for (ts, isd), o in zip(seq, offs):
+      prove(ts == o, "sequence-times==significant-times")
+      st, ref = core.call_real(ISD.from_model, doc, o, allowed=())
+      prove(P.fp_isd(isd, True) == P.fp_isd(ref, True), "sequence-entry==snapshot-at-that-time")
+
+  return Harness(f"isd-sequence[{shape}:{'+'.join(mask)}]", run, FN + ["ttconv.isd:ISD.generate_isd_sequence", "ttconv.isd:ISD.significant_times"],
+                 "replayers.c02:shape", {"shape": shape, "mask": list(mask)},
+                 "generate_isd_sequence == snapshots at the significant times (all timing values, this shape)")
+
+
 def h_c13(shape, mask):
   from rtc import isd_props as P
 
@@ -100,9 +120,11 @@ def h_c14(shape, mask):
                  "snapshot with the precomputed significant times == snapshot without (all timings and times, this shape); source untouched")
 
 
-def generic_check(prop, factory, explanation, assumptions, level="other"):
+def generic_check(prop, factory, explanation, assumptions, level="other", extra_factories=()):
   def check(tier, seed, only=None, skip_a=False, skip_b=False):
     hs = [factory(shape, mask) for shape, masks in MASKS.items() for mask in masks]
+    for f2 in extra_factories:
+      hs += [f2(shape, mask) for shape, masks in MASKS.items() for mask in masks]
     if only:
       hs = [h for h in hs if only in h.name]
     for h in hs:
